@@ -1,5 +1,5 @@
 BASELINE_OFF = ("cd /repo && GOFLAGS=-mod=mod GOPROXY=off go test -vet=off -count=1 -timeout 25m ./...")
-HOOK_COMMITS = ["3eb0f143", "ec29f447", "f0d610d1"]
+HOOK_COMMITS = ["3eb0f143", "ec29f447", "f0d610d1", "122052f1"]
 NOTES = ("One engine. Every check is `python3 tools/check.py <id> --tier quick|thorough`; exit 0/1/2 as in DESIGN.md 1.1. "
          "Scratch files live in /verif/.work (ignored by git).")
 
@@ -52,6 +52,18 @@ CHECKS = {
           "catch-up mode, leavers are stopped after the transition, as production does; " + _NET + ". Monitors: distributed key unchanged, C02 monitors across the transition round, "
           "partials made with old-epoch shares are not accepted after the switch, the new group keeps producing (NoProgress).",
   "design_ref": "DESIGN.md 4 C07", "note": _TRUST + " The DKG itself is not run here (fabricated resharing).", "technique": _TECH,
+ },
+ "C13": {
+  "text": "Exhaustive TLC exploration of Persist.tla: every persistence step of scripted runs (first DKG, beacons, resharing, leaving) in the code's order with Crash enabled in every state and "
+          "Restart mirroring LoadBeaconFromStore/Load (plus a family of 170 runs). TLC prints each run's persistence steps and crash points; a Go harness executes the run on a real DrandDaemon "
+          "(bolt chain db, dkg.db, file key store, real beacon handler, fake clock, 2-of-3 group whose other members are simulated in memory), copies the node's directories at every crash point "
+          "(incl. torn key files) while the writer is parked and starts a fresh DrandDaemon (LoadBeaconsFromDisk) on every copy. TLC trace validation checks step order and on-disk abstract state "
+          "against the spec and evaluates Mon_ChainIntact / Mon_FinishedWhole / Mon_KeyEpoch / Mon_Resumes on the observed restart records.",
+  "design_ref": "DESIGN.md 4 C13",
+  "note": "Trusted: TLC; bbolt transaction atomicity and durability (one tx = one step). A crash is a copy of the files at a step boundary (process death, not unsynced-page loss); a torn file is the 0-byte "
+          "and the half-length prefix. The kyber DKG is not run: the harness performs the tail of executeAndFinishDKG (Complete, SaveFinished, fan-out) in that order on the daemon's real store and channel. "
+          "Resumes = the handler was created and is running on the restarted daemon.",
+  "technique": "TLA+ spec + TLC exhaustive model checking + spec-driven crash-point enumeration on the real daemon + TLC trace validation",
  },
  "C12": {
   "text": "Exhaustive TLC exploration of PartialCache.tla (complete state graph on small constants) for the per-signer bound and no-cross-eviction, "
